@@ -78,7 +78,7 @@ pub const PAIRS: &[(&str, &str)] = &[("<", ">"), ("/* <", "> */"), ("<!-- <", ">
 pub const NAMES: &[&str] = &["tl", "rm", "x", "/tl", "time-limited", "期限"];
 pub const BARE: &[&str] = &["skip", "unwrap-block", "foo", "*", "a.b", "k9", "日本"];
 pub const KEYS: &[&str] = &["to", "name", "c", "data-x"];
-pub const VALUES: &[&str] = &["", "v", "2020-01-01 00:00:00", "a b", "a=b", "it's", "say \"hi\"", "line1\nline2", "skip", "unwrap-block", "/tl", "x > y", "日本語", " ", "=", "a  b", "\t", "\u{0}DS", "name='a' skip", "> "];
+pub const VALUES: &[&str] = &["", "v", "2020-01-01 00:00:00", "a b", "a=b", "it's", "say \"hi\"", "line1\nline2", "skip", "unwrap-block", "/tl", "x > y", "日本語", " ", "=", "a  b", "\t", "\u{0}DS", "name='a' skip", "> ", "C:\\work\\", "\\", "a\\\\\\"];
 pub const SEPS: &[&str] = &[" ", "  ", "\n", "\n  ", " \n * ", "\n * ", " \n"];
 pub const TAILS: &[&str] = &["", " ", "  ", "\n", " \n * "];
 pub const LEADS: &[&str] = &["", " ", "  "];
